@@ -615,7 +615,9 @@ func (p *parser) clauses() []*Clause {
 			}
 		case "unreachable":
 			c.Kind = t.s
-			c.Label = p.optLabel()
+			if p.peek().kind == "str" {
+				c.Label = p.next().s
+			}
 		case "trusted", "nopanic":
 			c.Kind = t.s
 		case "ghostlocal":
